@@ -28,6 +28,7 @@ OF THIS SOFTWARE, EVEN IF ADVISED OF THE POSSIBILITY OF SUCH DAMAGE.
 
 #pragma once
 
+#include "verif_hooks.h"
 #include "common.hpp"
 #include "intrin_portable.h"
 #include "instruction.hpp"
@@ -126,6 +127,7 @@ namespace randomx {
 		static void executeBytecode(InstructionByteCode bytecode[RANDOMX_PROGRAM_MAX_SIZE], uint8_t* scratchpad, ProgramConfiguration& config, randomx_flags flags) {
 			for (int pc = 0, n = Program::getSize(flags); pc < n; ++pc) {
 				auto& ibc = bytecode[pc];
+				RANDOMX_VERIF_COUNT_INSTRUCTION();
 				executeInstruction(ibc, pc, scratchpad, config, flags);
 			}
 		}
